@@ -106,7 +106,7 @@ PROPS = {
         "rule": "real modbus.Client <-> modbus.Server over net.Pipe, RTU and TCP framing, fresh link per case: coil/discrete reads (counts 1,2,7,8,9,12,15,16,17,24,100,2000,2001,0), "
                 "register reads (counts 1..126 incl. 97-100,124-126), single coil/register writes with read-back of the whole register file, on the C18 register maps; "
                 "raw frames (valid, bit-flipped, truncated, random) into both Decode functions; conversions uint32/int32/float32 both word orders and int16 on boundary patterns; "
-                "distinct = distinct case line; every case runs the real client, server or codec",
+                "distinct = distinct case line; every case runs the real client, server or codec; one case in 25 is a sequence of 2-6 reads over ONE link (on TCP the transaction id goes up with every request; the model is evaluated with the same ids)",
         "trusted": ["net.Pipe as lossless in-memory duplex; math.Float32bits/frombits are bijections on non-NaN patterns"],
         "modelled": ["modbus/client.go, rtu.go, crc.go, tcp.go, RespReadBitsCount/RespReadRegs, data.go modelled by hand (Siot/Model/ModbusE2E.lean) on top of the C18 server model",
                      "timing (respreader, socket deadlines) is not modelled: a request the server does not answer is the outcome `timeout`",
